@@ -237,11 +237,16 @@ func (s *System) removeFuture(agentRef *AgentRef) {
 }
 
 func (s *System) removeFuturesByAgentPath(agentPath vivid.ActorPath, err error) {
+	// 在锁内复制一份待关闭的 Future 路径：Future 关闭时的回调（removeFuture）会在锁内修改该 map，
+	// 若在锁外直接遍历原 map，会与之并发读写（fatal error: concurrent map iteration and map write）
 	s.futureLock.Lock()
-	refs := s.futureAgents[agentPath]
+	refs := make([]vivid.ActorPath, 0, len(s.futureAgents[agentPath]))
+	for ref := range s.futureAgents[agentPath] {
+		refs = append(refs, ref)
+	}
 	s.futureLock.Unlock()
 
-	for ref := range refs {
+	for _, ref := range refs {
 		if ctx, ok := s.actorContexts.Load(ref); ok {
 			if f, ok := ctx.(*future.Future[vivid.Message]); ok {
 				f.Close(err)
